@@ -465,6 +465,12 @@ def run_schedules(case):
         outcomes[key] = outcomes.get(key, 0) + 1
         stats["points"] = max(stats["points"], len(sched.trace))
         stats["max_decisions"] = max(stats["max_decisions"], len(sched.decisions))
+        if sched.races:
+            sig = "shared-mutable-state:%s" % kind
+            if sig not in v:
+                tid, shape, dtype, where = sched.races[0]
+                v[sig] = viol(sig, "task %d found an array it can reach (shape %s, %s) modified by another live task %s - unsynchronised shared mutable state between the per-chunk tasks (a data race in compiled / GIL-releasing code); %d such observations in schedule %s" % (
+                    tid, shape, dtype, where, len(sched.races), [c for (_, c, _) in sched.decisions]))
         if result.shape != seq.shape or not np.allclose(result, seq, rtol=1e-5, atol=1e-7):
             sig = "schedule-dependent-result:%s" % kind
             if sig not in v:
